@@ -8,32 +8,44 @@ namespace NcVerif.C13
 open NcVerif NcVerif.Lock
 
 /-- A run only ever appends to what the server has seen. -/
-theorem trace_extends (srv : Server) (p : Prog) (tr : List Ev) : ∃ d, (run srv p tr).1 = tr ++ d :=
-  LockP.run_extends srv p tr
+theorem trace_extends (srv : Server) (m : Mode) (p : Prog) (tr : List Ev) : ∃ d, (run srv m p tr).1 = tr ++ d :=
+  LockP.run_extends srv m p tr
 
 /-- Lock granted: the server sees `lock t`, then exactly the body's own requests, then `unlock t`,
     once — whether the body returns or raises. -/
-theorem bracket (srv : Server) (t : Nat) (body : Prog) (tr : List Ev)
+theorem bracket (srv : Server) (m : Mode) (t : Nat) (body : Prog) (tr : List Ev)
     (h : refused (srv (tr ++ [.lock t])) = false) :
-    (run srv (.locked t body) tr).1 = (run srv body (tr ++ [.lock t])).1 ++ [.unlock t] :=
-  LockP.run_locked_granted_fst srv t body tr h
+    (run srv m (.locked t body) tr).1 = (run srv m body (tr ++ [.lock t])).1 ++ [.unlock t] :=
+  LockP.run_locked_granted_fst srv m t body tr h
 
 /-- …and the body's exception (or normal return) propagates, unless the unlock itself is refused. -/
-theorem body_exception_propagates (srv : Server) (t : Nat) (body : Prog) (tr : List Ev)
+theorem body_exception_propagates (srv : Server) (m : Mode) (t : Nat) (body : Prog) (tr : List Ev)
     (h : refused (srv (tr ++ [.lock t])) = false)
-    (hu : refused (srv ((run srv body (tr ++ [.lock t])).1 ++ [.unlock t])) = false) :
-    (run srv (.locked t body) tr).2 = (run srv body (tr ++ [.lock t])).2 :=
-  LockP.run_locked_granted_snd srv t body tr h hu
+    (hu : refused (srv ((run srv m body (tr ++ [.lock t])).1 ++ [.unlock t])) = false) :
+    (run srv m (.locked t body) tr).2 = (run srv m body (tr ++ [.lock t])).2 :=
+  LockP.run_locked_granted_snd srv m t body tr h hu
 
 /-- Lock refused: the body does not run and no unlock is sent; the caller sees the lock's error. -/
-theorem lock_refused (srv : Server) (t : Nat) (body : Prog) (tr : List Ev)
+theorem lock_refused (srv : Server) (m : Mode) (t : Nat) (body : Prog) (tr : List Ev)
     (h : refused (srv (tr ++ [.lock t])) = true) :
-    run srv (.locked t body) tr = (tr ++ [.lock t], some (.rpc (.lock t))) :=
-  LockP.run_locked_refused srv t body tr h
+    run srv m (.locked t body) tr = (tr ++ [.lock t], some (.rpc (.lock t))) :=
+  LockP.run_locked_refused srv m t body tr h
 
 /-- A warning-only answer to `lock` is not a refusal: the body runs under the lock. -/
 theorem warning_is_not_refusal : refused .warning = false ∧ refused .ok = false ∧ refused .error = true := by
   decide
+
+/-- The manager's own raise mode does not reach `<lock>`/`<unlock>`: under `RaiseMode.ALL` a
+    warning-only answer to `<lock>` still runs the body under the lock and releases it, and under
+    `RaiseMode.NONE` a refused `<lock>` still raises with the body not run. -/
+theorem manager_mode_does_not_reach_lock (srv : Server) (t : Nat) (body : Prog) (tr : List Ev) :
+    (srv (tr ++ [.lock t]) = .warning →
+      (run srv .all (.locked t body) tr).1 = (run srv .all body (tr ++ [.lock t])).1 ++ [.unlock t]) ∧
+    (srv (tr ++ [.lock t]) = .error →
+      run srv .none (.locked t body) tr = (tr ++ [.lock t], some (.rpc (.lock t)))) := by
+  constructor
+  · intro h; exact LockP.run_locked_granted_fst srv .all t body tr (by rw [h]; rfl)
+  · intro h; exact LockP.run_locked_refused srv .none t body tr (by rw [h]; rfl)
 
 /-- Well-bracketedness of what the server sees: `Balanced srv tr d` — `d` is appended to `tr` and its
     granted locks and unlocks nest properly, each unlock naming the datastore of the matching lock;
@@ -73,57 +85,57 @@ private theorem Balanced.append {srv : Server} {tr d₁ : List Ev} (h₁ : Balan
     simpa only [List.append_assoc, List.cons_append, List.nil_append] using h₂
 
 /-- Every program, against every server: the lock/unlock events it produces are well-bracketed. -/
-theorem well_bracketed (srv : Server) (p : Prog) (tr : List Ev) :
-    ∃ d, (run srv p tr).1 = tr ++ d ∧ Balanced srv tr d := by
+theorem well_bracketed (srv : Server) (m : Mode) (p : Prog) (tr : List Ev) :
+    ∃ d, (run srv m p tr).1 = tr ++ d ∧ Balanced srv tr d := by
   induction p generalizing tr with
   | skip => exact ⟨[], by simp only [run, List.append_nil], Balanced.nil tr⟩
   | req n => exact ⟨[.req n], by simp only [run], Balanced.req tr n [] (Balanced.nil _)⟩
   | raise e => exact ⟨[], by simp only [run, List.append_nil], Balanced.nil tr⟩
   | seq a b iha ihb =>
     obtain ⟨d₁, h₁, b₁⟩ := iha tr
-    cases hr : run srv a tr with
+    cases hr : run srv m a tr with
     | mk tr' x =>
       rw [hr] at h₁
       simp only at h₁
       cases x with
-      | some x => exact ⟨d₁, by rw [LockP.run_seq_some srv a b tr tr' x hr]; exact h₁, b₁⟩
+      | some x => exact ⟨d₁, by rw [LockP.run_seq_some srv m a b tr tr' x hr]; exact h₁, b₁⟩
       | none =>
         obtain ⟨d₂, h₂, b₂⟩ := ihb tr'
         refine ⟨d₁ ++ d₂, ?_, b₁.append d₂ (h₁ ▸ b₂)⟩
-        rw [LockP.run_seq_none srv a b tr tr' hr, h₂, h₁, List.append_assoc]
+        rw [LockP.run_seq_none srv m a b tr tr' hr, h₂, h₁, List.append_assoc]
   | locked t body ih =>
     cases h : refused (srv (tr ++ [.lock t])) with
     | true =>
-      exact ⟨[.lock t], by rw [LockP.run_locked_refused srv t body tr h],
+      exact ⟨[.lock t], by rw [LockP.run_locked_refused srv m t body tr h],
         Balanced.refusedLock tr t [] h (Balanced.nil _)⟩
     | false =>
       obtain ⟨d, hd, bd⟩ := ih (tr ++ [.lock t])
       refine ⟨.lock t :: d ++ .unlock t :: [], ?_, Balanced.granted tr t d [] h bd (Balanced.nil _)⟩
-      rw [LockP.run_locked_granted_fst srv t body tr h, hd]
+      rw [LockP.run_locked_granted_fst srv m t body tr h, hd]
       simp only [List.append_assoc, List.cons_append, List.nil_append]
 
 /-- Exactly one unlock per granted lock, none for a refused one (counting form, any datastore). -/
-theorem unlock_count (srv : Server) (t : Nat) (body : Prog) (tr : List Ev) :
-    let r := run srv (.locked t body) tr
-    let bodyUnlocks := ((run srv body (tr ++ [.lock t])).1.drop (tr.length + 1)).count (.unlock t)
+theorem unlock_count (srv : Server) (m : Mode) (t : Nat) (body : Prog) (tr : List Ev) :
+    let r := run srv m (.locked t body) tr
+    let bodyUnlocks := ((run srv m body (tr ++ [.lock t])).1.drop (tr.length + 1)).count (.unlock t)
     (r.1.drop tr.length).count (.unlock t) =
       if refused (srv (tr ++ [.lock t])) then 0 else bodyUnlocks + 1 := by
   intro r bodyUnlocks
   cases h : refused (srv (tr ++ [.lock t])) with
   | true =>
     have hr : r = (tr ++ [.lock t], some (.rpc (.lock t))) :=
-      LockP.run_locked_refused srv t body tr h
+      LockP.run_locked_refused srv m t body tr h
     rw [hr]
     simp only [List.drop_left, if_true]
     simp
   | false =>
-    obtain ⟨d, hd⟩ := LockP.run_extends srv body (tr ++ [.lock t])
+    obtain ⟨d, hd⟩ := LockP.run_extends srv m body (tr ++ [.lock t])
     have hr : r.1 = tr ++ (.lock t :: d ++ [.unlock t]) := by
-      show (run srv (.locked t body) tr).1 = _
-      rw [LockP.run_locked_granted_fst srv t body tr h, hd]
+      show (run srv m (.locked t body) tr).1 = _
+      rw [LockP.run_locked_granted_fst srv m t body tr h, hd]
       simp only [List.append_assoc, List.cons_append, List.nil_append]
     have hb : bodyUnlocks = d.count (.unlock t) := by
-      show ((run srv body (tr ++ [.lock t])).1.drop (tr.length + 1)).count (.unlock t) = _
+      show ((run srv m body (tr ++ [.lock t])).1.drop (tr.length + 1)).count (.unlock t) = _
       rw [hd]
       have hl : tr.length + 1 = (tr ++ [Ev.lock t]).length := by
         simp only [List.length_append, List.length_cons, List.length_nil]
@@ -135,11 +147,16 @@ theorem unlock_count (srv : Server) (t : Nat) (body : Prog) (tr : List Ev) :
 
 /-! Non-vacuity: body raises inside a nested lock on another datastore; server answers everything ok. -/
 def okSrv : Server := fun _ => .ok
-example : run okSrv (.locked 1 (.seq (.req 7) (.locked 2 (.seq (.req 8) (.raise 5))))) [] =
+example : run okSrv .errors (.locked 1 (.seq (.req 7) (.locked 2 (.seq (.req 8) (.raise 5))))) [] =
     ([.lock 1, .req 7, .lock 2, .req 8, .unlock 2, .unlock 1], some (.body 5)) := by decide
 -- a server that refuses the second lock: no unlock for it, outer lock still released
 def refuse2 : Server := fun tr => if tr.getLast? = some (.lock 2) then .error else .ok
-example : run refuse2 (.locked 1 (.seq (.locked 2 (.req 8)) (.req 9))) [] =
+example : run refuse2 .all (.locked 1 (.seq (.locked 2 (.req 8)) (.req 9))) [] =
     ([.lock 1, .lock 2, .unlock 1], some (.rpc (.lock 2))) := by decide
+
+-- manager mode ALL: a warning answer to a body request raises there, the unlock still goes out; a warning answer to the lock does not
+def warnAll : Server := fun _ => .warning
+example : run warnAll .all (.locked 1 (.seq (.req 7) (.req 8))) [] =
+    ([.lock 1, .req 7, .unlock 1], some (.rpc (.req 7))) := by decide
 
 end NcVerif.C13
